@@ -34,6 +34,7 @@ pub fn dispatch(cmd: &str, args: &Args) -> Option<i32> {
     Some(match cmd {
         "c04-rand" => random(args),
         "c04-exh" => exhaustive(args),
+        "c04-sweep" => sweep(args),
         "c04-replay" => replay(args),
         "c04-goldens" => goldens(args),
         _ => return None,
@@ -450,6 +451,71 @@ fn exhaustive(args: &Args) -> i32 {
     0
 }
 
+/// Badness sweep: two-line paragraphs whose first line has a chosen ratio r = 297 t / s of
+/// shortfall (or excess) t to stretchability (shrinkability) s, for every r from 0 to 1300 -- the
+/// whole domain of TeX's badness function (108) below inf_bad, on both sides -- under tolerances
+/// from a pool, plus the large-dimension branches of 108.  Inputs only: the specification says
+/// what badness, fitness class and demerits each line has.
+fn sweep(args: &Args) -> i32 {
+    quiet_panics();
+    let step: i64 = args.num("step", 1);
+    let mut out = Out::new(args.str("out"));
+    let mut st = Stats::default();
+    let tols: [i64; 6] = [10000, 12, 13, 99, 100, 200];
+    let mut emit = |st: &mut Stats, out: &mut Out, t: i64, s: i64, stretch: bool, tol: i64, n: i64| {
+        // line 1 = box glue box, broken at the second glue; the glue carries all of s
+        let (w1, g, w2) = (5, 2, t + 7);
+        let nat = w1 + g + w2;
+        let glue = if stretch { gl(g, s, 0, 1) } else { gl(g, 1, 0, s) };
+        let items = vec![bx(w1), glue, bx(w2), gl(1, 0, 0, 0), bx(4), pn(10000), gl(0, 1, 1, 0)];
+        let lw = if stretch { nat + t } else { nat - t };
+        if lw <= 0 {
+            return;
+        }
+        let mut inst = instance(items, &[lw, lw + 50], tol, if n % 2 == 0 { 10000 } else { 37 }, 0, false);
+        inst["lp"] = json!(if n % 3 == 0 { 0 } else { 10 });
+        let ev = run_instance(&inst);
+        st.fresh(&inst);
+        st.add(&ev);
+        out.line(&ev);
+    };
+    let mut n = 0i64;
+    let mut r = 0i64;
+    while r <= 1300 {
+        for stretch in [true, false] {
+            // s = 297 m, t = r m: (297 t) div s = r exactly
+            let m = 1 + (r % 7);
+            // once with every line feasible (the fitness class of the line is logged), once under a
+            // tolerance from the pool (the feasibility threshold)
+            emit(&mut st, &mut out, r * m, 297 * m, stretch, 10000, n);
+            emit(&mut st, &mut out, r * m, 297 * m, stretch, tols[1 + (n % 5) as usize], n + 1);
+            n += 1;
+        }
+        r += step;
+    }
+    // the branches of 108 for large dimensions, and zero / negative stretchability
+    for &t in &[7230584i64, 7230585, 10_000_000, 200_000_000] {
+        for &s in &[1i64, 1663496, 1663497, 1663498, 10_000_000, 100_000_000] {
+            for stretch in [true, false] {
+                emit(&mut st, &mut out, t, s, stretch, 10000, n);
+                n += 1;
+            }
+        }
+    }
+    for &t in &[0i64, 1, 5] {
+        for &s in &[0i64, 1] {
+            for stretch in [true, false] {
+                emit(&mut st, &mut out, t, s, stretch, 10000, n);
+                n += 1;
+            }
+        }
+    }
+    out.flush();
+    st.write(args, &format!("badness sweep step={step}"));
+    eprintln!("c04-sweep: {} events, {} solved, {} panics", st.n, st.solved, st.panics);
+    0
+}
+
 /// A random paragraph: words of boxes (with discretionaries and font kerns inside) separated by
 /// glue, penalties, explicit kerns and combinations of them; line widths around a fraction of the
 /// natural width; parameters from pools that contain the boundary values of the algorithm.
@@ -570,8 +636,11 @@ fn gen_instance(rng: &mut Rng, max_breaks: usize) -> Value {
             break;
         }
     }
-    // the end of the paragraph
-    match rng.below(10) {
+    // the end of the paragraph; with looseness the last line more often has finite glue, so that
+    // several final nodes with the same number of lines (different fitness classes) compete
+    let loose = *rng.pick(&[0i64, 0, 0, 0, 0, 0, 1, -1, 2, -2, 1, -1]);
+    let tail_kind = if loose != 0 && rng.chance(1, 2) { 7 + rng.below(2) } else { rng.below(10) };
+    match tail_kind {
         0..=6 => {
             items.push(pn(10000));
             items.push(gl(0, u.max(1), 1, 0)); // \parfillskip
@@ -596,16 +665,36 @@ fn gen_instance(rng: &mut Rng, max_breaks: usize) -> Value {
             items[a].as_object_mut().unwrap().insert("rep".into(), json!(rep));
         }
     }
+    // one instance in four has "fine" dimensions: every width, stretch and shrink is moved off the
+    // multiples of the unit, so that stretch and shrink ratios are dense (badness values near the
+    // fitness and tolerance thresholds occur)
+    let fine = u >= 100 && rng.chance(1, 2) || u >= 7 && rng.chance(1, 8);
+    if fine {
+        let j = (u / 12).max(1);
+        for it in items.iter_mut() {
+            let m = it.as_object_mut().unwrap();
+            for key in ["w", "st", "sh"] {
+                if let Some(x) = m.get(key).and_then(|x| x.as_i64()) {
+                    if x != 0 && !(key == "st" && m.get("sto").and_then(|o| o.as_i64()).unwrap_or(0) > 0) {
+                        let y = x + rng.range(-j, j);
+                        m.insert(key.into(), json!(if x > 0 { y.max(1) } else { y.min(-1) }));
+                    }
+                }
+            }
+        }
+    }
     // natural width and line widths
     let nat: i64 = items.iter().map(|it| if it["k"] == "box" || it["k"] == "glue" || it["k"] == "kern" { i(it, "w") } else { 0 }).sum();
-    let lines = rng.range(1, 4);
-    let base = (nat / lines).max(u) + rng.range(-2, 3) * u;
-    let nw = *rng.pick(&[1usize, 1, 1, 2, 2, 3, 4]);
-    let lw: Vec<i64> = (0..nw).map(|k| if k == 0 { base.max(1) } else { (base + rng.range(-3, 3) * u).max(1) }).collect();
+    let lines = rng.range(1, 5);
+    let fj = if fine { rng.range(-u / 3, u / 3) } else { 0 };
+    let base = (nat / lines).max(u) + rng.range(-2, 3) * u + fj;
+    let nw = *rng.pick(&[1usize, 1, 1, 2, 2, 3, 3, 4, 4, 5]);
+    let lw: Vec<i64> = (0..nw)
+        .map(|k| if k == 0 { base.max(1) } else { (base + rng.range(-3, 3) * u + if fine { rng.range(-u / 3, u / 3) } else { 0 }).max(1) })
+        .collect();
     let tol = *rng.pick(&[10000i64, 10000, 10000, 10000, 10000, 200, 200, 200, 1000, 100, 50, 9999, 10001, 20000, 0, -1, 13, 12, 99]);
     let es = if rng.chance(1, 6) { rng.range(1, 5) * u } else { 0 };
     let fin = rng.chance(1, 5);
-    let loose = *rng.pick(&[0i64, 0, 0, 0, 0, 0, 1, -1, 2, -2, 1, -1]);
     let lp = *rng.pick(&[10i64, 10, 10, 10, 0, 100, -10, 1, 5000, 12000, 200]);
     let hp = *rng.pick(&[50i64, 50, 50, 0, -50, 500, 10000, -10000, 9999, 1000]);
     let ehp = *rng.pick(&[50i64, 50, 0, -50, 500, 10000, -10000, 30]);
